@@ -182,8 +182,11 @@ def bits_of(word):
 
 
 def key_class(cfg):
+    """stage values that differ from the baseline stages (pulse shaper / polarisation layout / channel): a defect in one
+    block shows up under the classes that contain that block, so different defects get different keys"""
     d = dict(zip(NAMES, cfg))
-    return f"{d['pulse']}:{d['layout']}:{d['chan'].rstrip('+-')}"
+    dev = [v for v, b in ((d['pulse'], 'nrz'), (d['layout'], '1pol'), (d['chan'].rstrip('+-'), 'none')) if v != b]
+    return '+'.join(dev) if dev else 'base'
 
 
 def total(x):
@@ -202,14 +205,14 @@ def link_case(case):
     y = run_link(cfg, bits)
     viol = []
     if y.len() != bits.size * sps:
-        viol.append((f'link:length:{kc}', f'cfg={cfg} word={word}: PD output has {y.len()} samples, expected {bits.size*sps}'))
+        viol.append(('link:length', f'cfg={cfg} word={word}: PD output has {y.len()} samples, expected {bits.size*sps}'))
     s = SAMPLER(y, sps // 2)
     tot = total(s)
     if tot.size != bits.size:
-        viol.append((f'link:sample-count:{kc}', f'cfg={cfg} word={word}: SAMPLER returned {tot.size} samples for {bits.size} slots'))
+        viol.append(('link:sample-count', f'cfg={cfg} word={word}: SAMPLER returned {tot.size} samples for {bits.size} slots'))
         return res(viol=viol, obs=('count', tot.size), nontrivial=True, stats={'link_runs': 1})
     if not np.all(np.isfinite(tot)):
-        viol.append((f'link:nonfinite:{kc}', f'cfg={cfg} word={word}: non-finite received samples'))
+        viol.append(('link:nonfinite', f'cfg={cfg} word={word}: non-finite received samples'))
         return res(viol=viol, obs=('nonfinite',), nontrivial=True, stats={'link_runs': 1})
     b = bits.astype(bool)
     m1, m0 = tot[b].mean(), tot[~b].mean()
